@@ -699,7 +699,8 @@ def apalache_refinement(tier):
 
 TLAPS_MODULES = {
     "map": ("MapProof.tla", "MapProofKV.tla", "MapProofRetain.tla", "MapProofId.tla"),
-    "alg": ("MapProofAlg.tla",),
+    "alg": ("MapProofAlg.tla", "MapProofEq.tla"),
+    "eq": ("MapProofEq.tla",),
 }
 
 
@@ -710,7 +711,9 @@ def tlaps_proof(group="map"):
     of keys (spec/MapProof.tla) and the ideal key-value map (spec/MapProofKV.tla); the loop invariant of retain
     and its postcondition (spec/MapProofRetain.tla); stored-key identity (spec/MapProofId.tla).
     group "alg" (C08): the filtered-slot-iterator loop behind difference / intersection / union /
-    symmetric_difference yields exactly the mathematical result, without repeats (spec/MapProofAlg.tla)."""
+    symmetric_difference yields exactly the mathematical result, without repeats (spec/MapProofAlg.tla); is_subset /
+    is_superset / is_disjoint tell the mathematical truth (spec/MapProofEq.tla).
+    group "eq" (C14): == as written in eq.rs holds exactly when both operands hold the same pairs; reflexive, symmetric."""
     d = os.path.join(WORK, "tlaps-%d" % os.getpid())
     shutil.rmtree(d, ignore_errors=True)
     os.makedirs(d)
@@ -827,6 +830,8 @@ def run_check(pid, tier, seed):
         summary["tlaps_inductive_invariant"] = tlaps_proof()
     if pid == "C08":
         summary["tlaps_inductive_invariant"] = tlaps_proof("alg")
+    if pid == "C14":
+        summary["tlaps_inductive_invariant"] = tlaps_proof("eq")
     if pid in ("C01", "C07"):
         summary["apalache_refinement"] = apalache_refinement(tier)
         summary["tlaps_inductive_invariant"] = tlaps_proof()
